@@ -48,6 +48,9 @@ def replay(case):
     if kind == 'spelling':
         from . import c06
         payload = inp['payload']
+        if inp['kind'] == 'pair':
+            problems = c06.check_pair(int(payload))
+            return {'violates': bool(problems), 'observed': {'pair': c06.PAIRS[int(payload)], 'problems': problems[:3]}, 'key': 'spelling:pair'}
         if isinstance(payload, list):
             payload = tuple(payload)
         problems, want, negzero = c06.check_spelling(inp['expr'], inp['kind'], payload, inp['ctx'])
